@@ -12,21 +12,17 @@ the two repairs).
   definition, and the bindings of the names that occur in its arguments (`entsOfList ctx args`) — not on the rest of
   the context, the block flags, or the fuel.
 * `C07_memo_sound`: a memo hit returns what building the statement afresh in the current context returns.
-* `C07_memo_transparent_parser`: `build cfg e = buildNoMemo cfg e` for every parser-shaped expression (`ParserShaped`:
-  a circuit whose header children — register, map, let, usepulses — all precede its body children, which is what the
-  grammar enforces: "Header statement … found after body statement").
-* `C07_memo_transparent_partial`: the same for ANY expression when `autoload_pulses` is off, or every `usepulses`
-  child of the circuit precedes every child that can build a gate statement (`orderOK`).
-* The full statement `C07_memo_transparent_full` (all expressions, all configurations) is FALSE for the code as it is:
-  `C07_memo_stale_after_usepulses`: `usepulses a; X r[0]; usepulses b; X r[0]` with autoload — the key does not
-  cover the gate table, so the second `X r[0]` is bound to module `a`'s definition although module `b` has
-  replaced it. Not reachable from program text.
-* Documentation of what the two repairs of the key fixed:
-  `C07_memo_conflates_numerals` (key before numbers were typed: `g 1; g 1.0` built the second statement with the int
-  `1`) and `C07_old_key_counterexample` (key before it covered names inside array items:
-  `let a 1; register r[3]; macro foo a { g r[a] }; g r[a]` bound the `a` of the main-body statement to the macro's
-  parameter). With today's key both programs are built as without the table (`C07_numerals_fixed`,
-  `C07_old_key_counterexample_detail`).
+* **`C07_memo_transparent`**: `build cfg e = buildNoMemo cfg e` for EVERY S-expression and every configuration: whatever
+  textually identical statements occur elsewhere (in another macro, in the main body, earlier or later), every
+  statement is built exactly as it would be built without the memo table. (`C07_memo_transparent_parser` is the
+  special case of parser-shaped input, kept for reference.)
+* Documentation of what the three repairs of the memo table fixed (each with the old behaviour as a build mode):
+  `C07_memo_stale_after_usepulses` (no reset of the table when a `usepulses` statement loads gates, `buildNoReset`:
+  `usepulses a; X r[0]; usepulses b; X r[0]` bound the second `X r[0]` to module `a`'s replaced definition; hand-made
+  S-expressions only), `C07_memo_conflates_numerals` (key before numbers were typed, `buildOldNumKey`: `g 1; g 1.0`
+  built the second statement with the int `1`) and `C07_old_key_counterexample` (key before it covered names inside
+  array items, `buildOldKey`: `let a 1; register r[3]; macro foo a { g r[a] }; g r[a]` bound the `a` of the main-body
+  statement to the macro's parameter).
 -/
 namespace Jaqal.Builder
 open Jaqal
@@ -162,15 +158,13 @@ def circuitChildren : BSx → List BSx
   | .list (.str "circuit" :: cs) => cs
   | _ => []
 
-/-- The full statement: the memo table never changes the result. It is FALSE (see below). -/
+/-- The full statement: the memo table never changes the result (proved below as `C07_memo_transparent`). -/
 def C07_memo_transparent_full : Prop := ∀ (cfg : Config) (e : BSx), build cfg e = buildNoMemo cfg e
 
 theorem erase_toCircuit (a : Acc) : a.erase.toCircuit = a.toCircuit := rfl
 
-/-- The memo table changes nothing when the `usepulses` statements precede everything that builds gate statements
-(or `autoload_pulses` is off). -/
-theorem C07_memo_transparent_partial (cfg : Config) (e : BSx)
-    (ho : cfg.autoload = false ∨ orderOK (circuitChildren e) = true) : build cfg e = buildNoMemo cfg e := by
+/-- **C07 (memo transparency).** The gate memo table never changes what is built. -/
+theorem C07_memo_transparent (cfg : Config) (e : BSx) : build cfg e = buildNoMemo cfg e := by
   unfold build buildNoMemo buildWith
   cases hi : cfg.inject with
   | error err => rfl
@@ -179,7 +173,6 @@ theorem C07_memo_transparent_partial (cfg : Config) (e : BSx)
     unfold buildCore
     split
     · rename_i children
-      simp only [circuitChildren] at ho
       have hsim := circuitLoop_sim cfg inject (BSx.depth (.list (.str "circuit" :: children)) + 1) children
         { st := { gctx := (inject.getD []).map (fun p => (p.1, GEntry.gdef p.2)) }, natives := inject.getD [] }
         { st := { gctx := (inject.getD []).map (fun p => (p.1, GEntry.gdef p.2)) }, natives := inject.getD [] }
@@ -189,10 +182,6 @@ theorem C07_memo_transparent_partial (cfg : Config) (e : BSx)
           simp only [BSx.depth, BSx.depthList]
           have := depth_le_of_mem hc
           omega)
-        (by
-          rcases ho with ha | ho
-          · exact Or.inl ha
-          · exact Or.inr (Or.inl ⟨rfl, ho⟩))
       rcases map_erase_congr hsim with ⟨err, h1, h2⟩ | ⟨a, a', h1, h2, he⟩
       · simp only [h1, h2]
       · simp only [h1, h2]
@@ -250,14 +239,13 @@ def progStale : BSx :=
     .list [.str "usepulses", .str "b", .str "*"],
     .list [.str "gate", .str "X", .list [.str "array_item", .str "r", .int 0]]]
 
-/-- With the memo table the second `X r[0]` is accepted and bound to the replaced definition; without it, it is
-rejected (module `b`'s `X` takes two arguments). -/
+/-- What resetting the memo table on a pulse load fixed: without the reset (`buildNoReset`) the second `X r[0]` was
+accepted and bound to the replaced definition; without a memo table it is rejected (module `b`'s `X` takes two
+arguments). -/
 theorem C07_memo_stale_after_usepulses :
-    obs (build cfgTwoModules progStale) ≠ obs (buildNoMemo cfgTwoModules progStale) := by decide
+    obs (buildNoReset cfgTwoModules progStale) ≠ obs (buildNoMemo cfgTwoModules progStale) := by decide
 
-theorem C07_memo_transparent_full_false : ¬ C07_memo_transparent_full := by
-  intro h
-  exact C07_memo_stale_after_usepulses (by rw [h cfgTwoModules progStale])
+theorem C07_memo_transparent_full_holds : C07_memo_transparent_full := C07_memo_transparent
 
 /-- `let a 1; register r[3]; macro foo a { g r[a] }; g r[a]` -/
 def progOldKey : BSx :=
@@ -280,35 +268,9 @@ theorem C07_old_key_counterexample_detail :
 
 /-! ### Parser-shaped expressions -/
 
-theorem orderOK_of_notUse : ∀ (body : List BSx), (∀ c ∈ body, notUse c = true) → orderOK body = true := by
-  intro body
-  induction body with
-  | nil => intro _; rfl
-  | cons c cs ih =>
-    intro h
-    simp only [orderOK]
-    by_cases hp : statePure c = true
-    · simp only [hp, if_true]; exact ih (fun d hd => h d (by simp [hd]))
-    · simp only [hp]
-      simp only [Bool.false_eq_true, if_false, List.all_eq_true]
-      exact fun d hd => h d (by simp [hd])
-
-theorem orderOK_parserShaped : ∀ (hdr body : List BSx), (∀ c ∈ hdr, headerChild c = true) →
-    (∀ c ∈ body, bodyChild c = true) → orderOK (hdr ++ body) = true := by
-  intro hdr
-  induction hdr with
-  | nil => intro body _ hb; exact orderOK_of_notUse body (fun c hc => bodyChild_notUse (hb c hc))
-  | cons c cs ih =>
-    intro body hh hb
-    simp only [List.cons_append, orderOK, headerChild_statePure (hh c (by simp)), if_true]
-    exact ih body (fun d hd => hh d (by simp [hd])) hb
-
-/-- **C07 (memo transparency) for everything the parser can produce**: whatever textually identical statements occur
-elsewhere (in another macro, in the main body, earlier or later), every statement is built exactly as it would be
-built without the memo table. -/
-theorem C07_memo_transparent_parser (cfg : Config) (e : BSx) (h : ParserShaped e) : build cfg e = buildNoMemo cfg e := by
-  obtain ⟨hdr, body, rfl, hh, hb⟩ := h
-  exact C07_memo_transparent_partial cfg _ (Or.inr (orderOK_parserShaped hdr body hh hb))
+/-- the special case of parser-shaped input (what `parse_to_sexpression` returns) -/
+theorem C07_memo_transparent_parser (cfg : Config) (e : BSx) (_h : ParserShaped e) : build cfg e = buildNoMemo cfg e :=
+  C07_memo_transparent cfg e
 
 /-- non-vacuity: the old-key counterexample program is parser-shaped (textually identical statements in the macro and
 in the main body, parameter = let name) -/
@@ -320,7 +282,7 @@ example : ParserShaped progOldKey :=
 
 /-- `g 1; g 1.0` is built as without the table now -/
 theorem C07_numerals_fixed : build {} progNumerals = buildNoMemo {} progNumerals :=
-  C07_memo_transparent_partial {} progNumerals (Or.inl rfl)
+  C07_memo_transparent {} progNumerals
 
 end Jaqal.Builder
 
@@ -328,11 +290,11 @@ end Jaqal.Builder
 #print axioms Jaqal.Builder.C07_innermost_param
 #print axioms Jaqal.Builder.C07_context_free
 #print axioms Jaqal.Builder.C07_memo_sound
-#print axioms Jaqal.Builder.C07_memo_transparent_partial
+#print axioms Jaqal.Builder.C07_memo_transparent
 #print axioms Jaqal.Builder.C07_memo_transparent_parser
 #print axioms Jaqal.Builder.C07_numerals_fixed
 #print axioms Jaqal.Builder.C07_memo_conflates_numerals
 #print axioms Jaqal.Builder.C07_memo_stale_after_usepulses
-#print axioms Jaqal.Builder.C07_memo_transparent_full_false
+#print axioms Jaqal.Builder.C07_memo_transparent_full_holds
 #print axioms Jaqal.Builder.C07_old_key_counterexample
 #print axioms Jaqal.Builder.C07_old_key_counterexample_detail
